@@ -229,6 +229,8 @@ class Sem:
 # hand-written, self-contained, compilable programs: constructs whose meaning depends on details the random generator
 # reaches rarely (unnamed bit-fields, ?: grouping, for-init lists, casts as operands, comma expressions in brackets, ...)
 SEMZOO = [
+    # qualified type names without declarator: compound literals (a const one lives in read-only storage), sizeof, casts, _Alignof
+    "struct point { int x; int y; };\nconst struct point *gp = &(const struct point){3, 4};\nconst int *gq = (const int[]){1, 2, 3};\nint *gm = (int[]){7, 8};\nint qsz = sizeof(const int) + sizeof(volatile char) + _Alignof(const long);\nint quse(void){ const struct point *lp = &(const struct point){1, 2}; volatile int v = (volatile int)5; return gp->x + gq[1] + gm[0] + lp->y + v + (const int)3; }\n",
     "int hx(int i, int j){ int a = (0xFE + i) << 2; int b = (0x1e - j) & 3; int c = (0xE + 1) * i; int d = (i + 0xAE) >> (0x2E - j); int e = 1e1 + 0x1E + i; return a + b + c + d + e + ((0xfE - 1) | (0Xe + j)); }\n",
     # unary plus and minus whose integer promotion is observable, unary operators in front of casts, sizeof of parenthesised operands
     "char uc = 1;\nshort ush = 2;\nstruct UB { unsigned b : 3; int w; } ub = { 5, 6 };\nint up1 = sizeof(+uc);\nint up2 = sizeof(+ush);\nint up3 = sizeof(-uc);\nint up4 = sizeof(~ush);\nint up5 = sizeof(+ub.b);\nint up6 = _Alignof(long) + sizeof(+(char)3);\nint upf(void){ char a[3] = {1, 2, 3}; return (int)sizeof(+uc) + (int)sizeof(uc) + (int)sizeof(+a[1]) + (int)sizeof(+ +uc) + (+uc) + +ush + - -ush + (int)sizeof(!uc) + (int)sizeof(+*a); }\n",
